@@ -71,7 +71,19 @@ func getWalk(c *core.Ctx) *walkModel {
 			if g == nil || g.Blocks == nil || !core.InMod(g) || seenClone[g] {
 				continue
 			}
-			if allocsNode(g) && len(g.Params) >= 1 && cm.isNodePtr(g.Params[0].Type()) && g.Signature.Results().Len() == 1 && cm.isNodePtr(g.Signature.Results().At(0).Type()) {
+			nodeToNode := len(g.Params) >= 1 && cm.isNodePtr(g.Params[0].Type()) && g.Signature.Results().Len() == 1 && cm.isNodePtr(g.Signature.Results().At(0).Type())
+			// a copy function allocates the node, or hands out the node another function allocates for the same receiver
+			delegates := false
+			if nodeToNode {
+				for _, r := range core.Returns(g) {
+					if rc, ok := r.Results[0].(*ssa.Call); ok {
+						if h := rc.Call.StaticCallee(); h != nil && h != g && core.InMod(h) && h.Blocks != nil && allocsNode(h) && len(rc.Call.Args) >= 1 && rc.Call.Args[0] == ssa.Value(g.Params[0]) {
+							delegates = true
+						}
+					}
+				}
+			}
+			if (allocsNode(g) || delegates) && nodeToNode {
 				seenClone[g] = true
 				m.clones = append(m.clones, g)
 				work = append(work, g)
@@ -450,7 +462,20 @@ var ruleCloneChain = &core.Rule{ID: "R03.3", Min: 5,
 								empty = true
 							}
 						}
-						okPs = passes || empty
+						// or the copy's type string is rewritten here with the parameters (judged by R02.3)
+						overridden := false
+						for _, ref := range *call.Referrers() {
+							if fa, ok := ref.(*ssa.FieldAddr); ok && fa.Field == m.tm.FMime {
+								for _, r2 := range *fa.Referrers() {
+									if st, ok := r2.(*ssa.Store); ok {
+										if fc, ok := st.Val.(*ssa.Call); ok && core.CalleeIs(&fc.Call, "mime", "FormatMediaType") && fc.Call.Args[1] == ssa.Value(ps) {
+											overridden = true
+										}
+									}
+								}
+							}
+						}
+						okPs = passes || empty || overridden
 					}
 					s.Check(okPs, key, c.Pos(r.Pos()), "copy of the same node by "+call.Call.StaticCallee().Name()+"; parameters passed on or empty", "the copy is delegated to a function that does not receive the parameter map although the map may hold parameters: the result loses its charset")
 				}
@@ -705,7 +730,7 @@ func checkCopyFields(c *core.Ctx, s *core.Sink, m *walkModel, bodies []*nodeCopy
 				}
 				var nc *nodeCopy
 				for _, cand := range bodies {
-					if cand.alloc != nil && fa.X == ssa.Value(cand.alloc) {
+					if fa.X == cand.val && (cand.alloc != nil || cand.fn == fn) {
 						nc = cand
 					}
 				}
@@ -973,7 +998,7 @@ var ruleParams = &core.Rule{ID: "R02.2", Min: 5,
 			if m.isClone(g) && len(g.Params) > 1 {
 				psOf = g.Params[1]
 			}
-			for _, ref := range *nc.alloc.Referrers() {
+			for _, ref := range *nc.val.Referrers() {
 				fa, ok := ref.(*ssa.FieldAddr)
 				if !ok || fa.Field != m.tm.FMime {
 					continue
@@ -1752,6 +1777,12 @@ func (m *walkModel) copyBodies() []*nodeCopy {
 			ps = cl.Params[1]
 		}
 		add(cl, cl.Params[0], ps)
+		// a copy obtained from another copy function for the same node is as fresh as an allocation
+		for _, ci := range core.Calls(cl) {
+			if call, ok := ci.(*ssa.Call); ok && m.isClone(call.Call.StaticCallee()) && call.Call.StaticCallee() != cl && len(call.Call.Args) >= 1 && call.Call.Args[0] == ssa.Value(cl.Params[0]) {
+				out = append(out, &nodeCopy{val: call, fn: cl, src: cl.Params[0], ps: ps})
+			}
+		}
 	}
 	add(m.chain, nil, nil)
 	return out
